@@ -5,6 +5,11 @@ import "time"
 var _ = time.Second
 
 func init() {
+	reg("C03", propCfg{
+		index: 3,
+		rule: "(a) bounded exhaustive: every string of length <= 3 (quick) / <= 5 (thorough) over {%, a, 1, ., -, (, ), \", space, é} as parameter value, and every string of length <= 3 as service argument and as decorator argument (batches of 400 candidates on separate keys); every name reachable in the alphabet is declared with one value of each literal type and `a` is also a registered function. Pass 1: the set of keys named by the token diagnostics must equal the set the reference pattern parser rejects (unbalanced %, unknown function, malformed token). Pass 2: the accepted candidates are compiled and every GetParam / injected argument is compared by Go type and value with the reference evaluation (%% -> %, reference keeps the type when it is the only chunk, several chunks concatenate the documented casts). (b) round trip: rapid Unicode strings (quotes, backslashes, newlines, control characters, BOM, bidi, astral runes) with every % doubled must evaluate to the original; the undoubled strings are checked for the verdict. (c) rapid chunk sequences over text, %%, references to parameters of every literal type and calls of env / envInt / todo / user functions with the environment variable set, unset, numeric and non-numeric, against the DI interpreter (errors must name the token). Non-trivial = the string contains at least one %; distinct by hash of (position, string)",
+		assume: []string{"function-call tokens whose argument text is not a list of Go literals are checked for the build-time verdict only (documented precondition), counted under excluded"},
+	})
 	reg("C20", propCfg{
 		index: 20,
 		rule: "cases are accepted configurations from the scope-heavy behavioural generator (shared, contextual, non_shared services; parameters with counted functions, multi-chunk patterns, env readers) with a rapid-drawn concurrent script: 1..3 rounds, each on a fresh container with 4, 16 or 64 goroutines released by a barrier, each running one of 1..4 drawn programmes of Get / GetInContext(A|B) / GetParam / GetTaggedBy, Gosched at drawn points, GOMAXPROCS 2 or 16; the probe is built with -race (halt_on_error). Oracle: no race report, crash or deadlock; every result structurally equals the sequential DI model's; every shared service has one instance serial over all goroutines; a contextual service has one instance per attached context and never the same in two contexts; Count-ed parameter functions that only occur in parameters ran exactly as often as in the sequential model (each parameter evaluated at most once). Non-trivial = a round with at least two goroutines; distinct by hash of (configuration, style, script)",
